@@ -174,3 +174,16 @@ def register(claim):
         'instantiated; device placement not decided.',
         'finite-state exploration of the queue control state by abstract interpretation of the AST',
         'DESIGN.md §3 C17')
+
+  claim('C10', 'other',
+        'Static equivalence / non-interference for the brax part of contact detection: contact.get is '
+        'abstractly interpreted with mjx.make_data / mjx.collision opaque; the geom world poses it '
+        'hands to the collision routine equal link pose (world = appended identity at index -1) '
+        'composed with the geom offset, link attribution is (geom_bodyid[geom1]-1, geom_bodyid[geom2]-1) '
+        'in order, elasticity is the mean, None iff no contact pairs; local_to_global equals Transform '
+        'composition (polynomial law); and a random-interpretation dependency check shows that world '
+        'contacts never read or move the last link in the three contact consumers.',
+        'Trusted: python ast, AVN normal form, mjx.collision computes dist / normal / position from the '
+        'geom poses it is given (external code).  Not decided: closed-form signed distances and normals.',
+        'algebraic value numbering with opaque collision routine + dependency (non-interference) check',
+        'DESIGN.md §3 C10')
